@@ -321,6 +321,10 @@ class _Sem(Interp):
             return v.value if isinstance(v, _Done) else None
         return super().ev(e, env, mod, depth)
 
+    def comp(self, e, env, mod, depth):
+        out = super().comp(e, env, mod, depth)
+        return iter(out) if isinstance(e, ast.GeneratorExp) else out  # a generator expression is an iterator (next(), single pass)
+
     def iterate(self, v, node):
         if isinstance(v, _Done):
             return list(v.yields)
@@ -491,7 +495,7 @@ def _format_request(ctx):
                             flags = calls[0][1] if calls else None
                             if len(calls) != 1 or not (isinstance(flags, _Flags) and flags.is_client is True and flags.is_response_header is False):
                                 fail("R06.3", f"an HTTP/1 header block must go through hyper-h2's normalize_outbound_headers exactly once with client / request flags before it is sent as HTTP/2; saw {len(calls)} call(s), flags {flags}")
-                            elif [f for f in calls[0][0] if not f[0].startswith(b":")] != src:
+                            elif _h2_normalised(f for f in calls[0][0] if not f[0].startswith(b":")) != _h2_normalised(src):
                                 fail("R06.3", f"the header block given to the normaliser must be the request's fields {_fmt(src)}, saw {_fmt(calls[0][0])}")
                             elif regular != _h2_normalised(src):
                                 fail("R06.3", f"the normalised header block must be what is emitted: expected {_fmt(_h2_normalised(src))}, saw {_fmt(regular)}")
@@ -553,7 +557,7 @@ def _format_response(ctx):
                 flags = calls[0][1] if calls else None
                 if len(calls) != 1 or not (isinstance(flags, _Flags) and flags.is_client is False and flags.is_response_header is True):
                     fail("R06.3", f"an HTTP/1 response header block must go through hyper-h2's normalize_outbound_headers exactly once with server / response flags before it is sent as HTTP/2; saw {len(calls)} call(s), flags {flags}")
-                elif [f for f in calls[0][0] if not f[0].startswith(b":")] != fields:
+                elif _h2_normalised(f for f in calls[0][0] if not f[0].startswith(b":")) != _h2_normalised(fields):
                     fail("R06.3", f"the header block given to the normaliser must be the response's fields {_fmt(fields)}, saw {_fmt(calls[0][0])}")
                 elif regular != _h2_normalised(fields):
                     fail("R06.3", f"the normalised header block must be what is emitted: expected {_fmt(_h2_normalised(fields))}, saw {_fmt(regular)}")
